@@ -271,3 +271,32 @@ Section Symmetry.
     apply fold_left_ext_local. intros acc e _. destruct (mask s1 e); [|reflexivity]. now rewrite Hs.
   Qed.
 End Symmetry.
+
+(* ------------------------------------------------------------------ *)
+(* 5. the API-level screen removes additive terms and nothing else (C06)  *)
+(* ------------------------------------------------------------------ *)
+Section Screen.
+  Local Open Scope R_scope.
+  Variable shell_l ecp_atom : list nat.
+  Lemma fold_mask_split (f : nat -> R) (m : nat -> bool) l acc :
+    fold_left (fun a e => if m e then nadd ROps a (f e) else a) l acc
+    = fold_left (fun a e => nadd ROps a (f e)) l acc - fold_right Rplus 0 (map (fun e => if m e then 0 else f e) l).
+  Proof.
+    revert acc. induction l as [|e l IH]; intros acc; cbn [fold_left map fold_right]; [lra|].
+    rewrite IH. destruct (m e); cbn [nadd ROps].
+    - lra.
+    - assert (G : forall a b, fold_left (fun a0 e0 => a0 + f e0) l (a + b) = fold_left (fun a0 e0 => a0 + f e0) l a + b).
+      { clear. induction l as [|x l IH]; intros a b; cbn; [reflexivity|]. rewrite <- IH. f_equal. lra. }
+      cbn [nadd ROps] in *. rewrite G. lra.
+  Qed.
+  (* screened result = unscreened result - sum of the skipped (shell,ECP) blocks; no other effect *)
+  Theorem api_screen_additive mask blk0 gk gl :
+    let '((s1, k), (s2, l)) := ordered shell_l gk gl in
+    integrals_entry ROps shell_l ecp_atom mask blk0 gk gl
+    = integrals_entry ROps shell_l ecp_atom (fun _ _ => true) blk0 gk gl
+      - fold_right Rplus 0 (map (fun e => if mask s1 e then 0 else blk0 s1 s2 e k l) (seq 0 (length ecp_atom))).
+  Proof.
+    unfold integrals_entry. destruct (ordered shell_l gk gl) as [[s1 k] [s2 l]].
+    rewrite (fold_mask_split (fun e => blk0 s1 s2 e k l) (mask s1)). reflexivity.
+  Qed.
+End Screen.
